@@ -38,10 +38,12 @@ VARIABLES pt,             \* parameter point of this session
           deg,            \* tab_nb_enc_symbols_per_equ
           ct,             \* tab_const_term_of_equ : row -> NoVal or partial sum
           nrep,           \* nb_repair_symbol_ready
+          led,            \* allocation ledger (ghost): [ctid, bid, heap, next, bad] -- which malloc'ed block backs
+                          \* each partial sum / stored symbol, the set of live library blocks, invalid frees
           rcvd,           \* history: ESIs submitted by the application
           nullderef       \* history: a NULL partial sum was handed to the recursion
 
-vars == <<pt, tab, M, unk, deg, ct, nrep, rcvd, nullderef>>
+vars == <<pt, tab, M, unk, deg, ct, nrep, led, rcvd, nullderef>>
 
 (* a point with N1 = 0 denotes the 2D product parity code with `seed' row checks of k/seed symbols each  *)
 (* (the generic IT/ML engines are shared by the LDPC-Staircase and the 2D parity codecs)                 *)
@@ -80,6 +82,21 @@ IsComplete(p, st) == \A i \in Src(p) : st.tab[i] # NoVal
 RowMembers(st, row) == { e[2] : e \in { f \in st.M : f[1] = row } }
 ColRows(st, esi) == { e[1] : e \in { f \in st.M : f[2] = esi } }
 
+(***************************************************************************)
+(* Allocation ledger threaded through the transcription (C08, model side): *)
+(* every of_malloc/of_calloc site of the C function takes a fresh block id,*)
+(* every of_free site returns one.  Buffer ids: -1 = application buffer,   *)
+(* -2 = buffer handed out by the application's callback, > 0 = library.    *)
+(***************************************************************************)
+CONSTANT UseCb          \* the application registered a source callback that returns buffers
+
+\* block ids are canonical (a function of what the block is for), so the ledger adds no history to the state:
+\*   1000 + row : partial sum of an equation      2000 + esi : library copy of a repair symbol
+\*   3000 + esi : degree-one work table of the call injecting esi      4000 : the temporary null symbol
+LAlloc(L, id) == IF id \in L.heap THEN [L EXCEPT !.bad = TRUE] ELSE [L EXCEPT !.heap = L.heap \cup {id}]
+LFree(L, id) == IF id \in L.heap THEN [L EXCEPT !.heap = L.heap \ {id}] ELSE [L EXCEPT !.bad = TRUE]
+Led0(p) == [ ctid |-> [ row \in Rows(p) |-> 0 ], bid |-> [ e \in 0 .. (N(p) - 1) |-> 0 ], heap |-> {}, bad |-> FALSE ]
+
 (* step 2 for one row; acc = [st, reg] *)
 Step2Row(p, acc, row, esi, v) ==
     LET st    == acc.st
@@ -93,12 +110,13 @@ Step2Row(p, acc, row, esi, v) ==
                  ct3    == XorSeq(<<ct2>> \o [ j \in 1 .. Cardinality(known) |-> st.tab[SetToSeq(known)[j]] ])
                  M2     == M1 \ { <<row, x>> : x \in known }
                  deg2   == st.deg[row] - 1 - Cardinality(known)
-                 st2    == [st EXCEPT !.unk[row] = unk1, !.ct[row] = ct3, !.M = M2, !.deg[row] = deg2]
+                 L1     == IF ct0 = NoVal THEN [LAlloc(st.led, 1000 + row) EXCEPT !.ctid[row] = 1000 + row] ELSE st.led   \* calloc
+                 st2    == [st EXCEPT !.unk[row] = unk1, !.ct[row] = ct3, !.M = M2, !.deg[row] = deg2, !.led = L1]
              IN  [ st |-> st2, reg |-> IF deg2 = 1 THEN Append(acc.reg, row) ELSE acc.reg ]
         ELSE [ st  |-> [st EXCEPT !.unk[row] = unk1],
                reg |-> IF st.deg[row] = 1 THEN Append(acc.reg, row) ELSE acc.reg ]
 
-RECURSIVE Inject(_, _, _, _), Step3(_, _, _, _)
+RECURSIVE InjectB(_, _, _, _, _), Step3(_, _, _, _)
 
 Step3(p, st, reg, idx) ==           \* idx walks Len(reg) .. 1
     IF idx = 0 \/ IsComplete(p, st) THEN st
@@ -106,21 +124,40 @@ Step3(p, st, reg, idx) ==           \* idx walks Len(reg) .. 1
          IN  IF st.deg[row] = 1
              THEN LET e2  == CHOOSE x \in RowMembers(st, row) : TRUE
                       cv  == st.ct[row]
+                      cid == st.led.ctid[row]
                       st1 == [st EXCEPT !.ct[row] = NoVal, !.deg[row] = 0, !.M = st.M \ { <<row, e2>> },
-                                        !.bad = st.bad \/ cv = NoVal]
-                  IN  Step3(p, Inject(p, st1, e2, IF cv = NoVal THEN {} ELSE cv), reg, idx - 1)
+                                        !.bad = st.bad \/ cv = NoVal, !.led.ctid[row] = 0]
+                      val == IF cv = NoVal THEN {} ELSE cv
+                  IN  IF e2 < p.k
+                      THEN IF UseCb
+                           THEN \* callback buffer: memcpy, free the partial sum, recurse with the callback's buffer
+                                Step3(p, InjectB(p, [st1 EXCEPT !.led = LFree(st1.led, cid)], e2, val, -2), reg, idx - 1)
+                           ELSE \* the partial-sum buffer becomes the decoded source symbol
+                                Step3(p, InjectB(p, st1, e2, val, cid), reg, idx - 1)
+                      ELSE \* repair symbol: recurse (the decoder takes its own copy), then free the partial sum
+                           LET st2 == InjectB(p, st1, e2, val, cid)
+                           IN  Step3(p, [st2 EXCEPT !.led = LFree(st2.led, cid)], reg, idx - 1)
              ELSE Step3(p, st, reg, idx - 1)
 
-Inject(p, st, esi, v) ==
+InjectB(p, st, esi, v, b) ==
     IF st.tab[esi] # NoVal THEN st                                   \* step 0
-    ELSE LET st1 == [st EXCEPT !.tab[esi] = v, !.nrep = IF esi >= p.k THEN st.nrep + 1 ELSE st.nrep]   \* step 1
+    ELSE LET L1  == IF esi >= p.k THEN [LAlloc(st.led, 2000 + esi) EXCEPT !.bid[esi] = 2000 + esi]      \* repair: malloc + memcpy
+                    ELSE [st.led EXCEPT !.bid[esi] = b]                                       \* source: pointer kept
+             st1 == [st EXCEPT !.tab[esi] = v, !.nrep = IF esi >= p.k THEN st.nrep + 1 ELSE st.nrep, !.led = L1]   \* step 1
          IN  IF esi < p.k /\ IsComplete(p, st1) THEN st1
-             ELSE LET rows == SetToSortSeq(ColRows(st1, esi), LAMBDA a, b : a < b)     \* column traversal, increasing row
+             ELSE LET rows == SetToSortSeq(ColRows(st1, esi), LAMBDA a, b2 : a < b2)     \* column traversal, increasing row
                       a2   == FoldLeft(LAMBDA acc, row : Step2Row(p, acc, row, esi, v),
                                        [st |-> st1, reg |-> <<>>], rows)
-                  IN  Step3(p, a2.st, a2.reg, Len(a2.reg))
+                      \* the degree-one work table: allocated on first use, freed at the end of the call
+                      tid  == 3000 + esi
+                      a3   == IF a2.reg # <<>> THEN [a2.st EXCEPT !.led = LAlloc(a2.st.led, tid)] ELSE a2.st
+                      r3   == Step3(p, a3, a2.reg, Len(a2.reg))
+                  IN  IF a2.reg # <<>> THEN [r3 EXCEPT !.led = LFree(r3.led, tid)] ELSE r3
 
-StateRec == [ tab |-> tab, M |-> M, unk |-> unk, deg |-> deg, ct |-> ct, nrep |-> nrep, bad |-> nullderef ]
+(* a symbol handed over by the application *)
+Inject(p, st, esi, v) == InjectB(p, st, esi, v, -1)
+
+StateRec == [ tab |-> tab, M |-> M, unk |-> unk, deg |-> deg, ct |-> ct, nrep |-> nrep, led |-> led, bad |-> nullderef ]
 
 InitRec(p) ==
     LET H  == HOf(p)
@@ -130,18 +167,22 @@ InitRec(p) ==
                 deg |-> [ row \in Rows(p) |-> Cardinality(H[row + 1]) ],
                 ct  |-> [ row \in Rows(p) |-> NoVal ],
                 nrep |-> 0,
+                led |-> Led0(p),
                 bad |-> FALSE ]
-    IN  IF ClaimsNull(p) THEN Inject(p, s0, N(p) - 1, {}) ELSE s0
+        \* the decoder feeds itself a calloc'ed null symbol and frees it afterwards (fix 5b912b9)
+        sn == [s0 EXCEPT !.led = LAlloc(s0.led, 4000)]
+        s1 == InjectB(p, sn, N(p) - 1, {}, 4000)
+    IN  IF ClaimsNull(p) THEN [s1 EXCEPT !.led = LFree(s1.led, 4000)] ELSE s0
 
 Init ==
     /\ pt \in Points
     /\ LET s == InitRec(pt)
-       IN  tab = s.tab /\ M = s.M /\ unk = s.unk /\ deg = s.deg /\ ct = s.ct /\ nrep = s.nrep /\ nullderef = s.bad
+       IN  tab = s.tab /\ M = s.M /\ unk = s.unk /\ deg = s.deg /\ ct = s.ct /\ nrep = s.nrep /\ led = s.led /\ nullderef = s.bad
     /\ rcvd = {}
 
 Recv(e) ==
     LET s == Inject(pt, StateRec, e, CwTab[pt][e])
-    IN  /\ tab' = s.tab /\ M' = s.M /\ unk' = s.unk /\ deg' = s.deg /\ ct' = s.ct /\ nrep' = s.nrep /\ nullderef' = s.bad
+    IN  /\ tab' = s.tab /\ M' = s.M /\ unk' = s.unk /\ deg' = s.deg /\ ct' = s.ct /\ nrep' = s.nrep /\ led' = s.led /\ nullderef' = s.bad
         /\ rcvd' = rcvd \cup {e}
         /\ UNCHANGED pt
 
@@ -183,6 +224,23 @@ PartialSums ==
               /\ \A x \in rest : tab[x] = NoVal
 
 NoNullDeref == ~nullderef
+
+(* C08, model side: no block is lost or freed twice inside the recursion -- at every state boundary the live    *)
+(* library blocks are exactly those backing a partial sum, a stored repair symbol or a decoded source symbol,    *)
+(* pairwise distinct; of_release_codec_instance frees the first two kinds, the third is the application's        *)
+LedgerOK ==
+    LET cts  == { led.ctid[row] : row \in { r2 \in Rows(pt) : led.ctid[r2] > 0 } }
+        bufs == { led.bid[e] : e \in { e2 \in 0 .. (N(pt) - 1) : led.bid[e2] > 0 } }
+    IN  /\ ~led.bad
+        /\ led.heap = cts \cup bufs
+        /\ Cardinality(cts) + Cardinality(bufs) = Cardinality(led.heap)
+        /\ \A row \in Rows(pt) : (ct[row] # NoVal) <=> (led.ctid[row] > 0)
+        /\ \A e \in 0 .. (N(pt) - 1) : (tab[e] # NoVal) <=> (led.bid[e] # 0)
+        /\ \A e \in pt.k .. (N(pt) - 1) : tab[e] # NoVal => led.bid[e] > 0            \* repairs are always library copies
+        /\ \A i \in Src(pt) : (i \in rcvd /\ led.bid[i] # 0) => TRUE
+ReleasedHeap ==   \* what is still allocated after of_ldpc_staircase_release_codec_instance
+    led.heap \ ({ led.ctid[row] : row \in Rows(pt) } \cup { led.bid[e] : e \in pt.k .. (N(pt) - 1) })
+NoLeakAtRelease == ReleasedHeap \subseteq { led.bid[i] : i \in Src(pt) }
 
 (* C16: a product parity code recovers any single loss by peeling alone *)
 SingleLoss == (pt.N1 = 0 /\ Cardinality(rcvd) >= N(pt) - 1) => Complete
